@@ -65,15 +65,52 @@ type c11vio struct {
 }
 
 type c11env struct {
-	flavour string // real | stub
-	facts   map[string]*c11fact
-	byHash  map[string]*c11fact
-	pps     *ProposalProcessors
-	answers map[string]string // what the next writer/processor call answers: "manifest", "process", "save" -> err|ign|cancel
-	saved   []c11saved
-	calls   []string
-	stubs   []*c11stub
-	opOf    map[int]string
+	flavour  string // real | stub
+	facts    map[string]*c11fact
+	byHash   map[string]*c11fact
+	pps      *ProposalProcessors
+	answers  map[string]string // what the next writer/processor call answers: "manifest", "process", "save" -> err|ign|cancel
+	saved    []c11saved
+	calls    []string
+	stubs    []*c11stub
+	opOf     map[int]string
+	withOps  bool                      // proposals carry one operation (Q part, real / direct flavours)
+	opByHash map[string]DummyOperation // operation hash -> operation
+	args     *DefaultProposalProcessorArgs
+	direct   *DefaultProposalProcessor // direct flavour: the processor driven without ProposalProcessors
+	directP  int                       // direct flavour: Process calls made
+}
+
+// c11Fault: the scripted answer of a writer / operation call: a plain error, or one
+// wrapping ErrIgnoreErrorProposalProcessor (runProcessor keeps such a processor).
+func c11Fault(answer, what string) error {
+	switch answer {
+	case "err":
+		return errors.Errorf("c11: %s failed", what)
+	case "ign":
+		return ErrIgnoreErrorProposalProcessor.Errorf("c11: %s failed; ignorable", what)
+	}
+
+	return nil
+}
+
+var c11signedOps = map[string]DummyOperation{}
+
+func c11SignedOp(name string) DummyOperation {
+	if op, ok := c11signedOps[name]; ok {
+		return op
+	}
+
+	fact := NewDummyOperationFact([]byte("c11-token-"+name), valuehash.NewSHA256([]byte("c11-opvalue-"+name)))
+
+	op, err := NewDummyOperation(fact, base.NewMPrivatekey(), base.NetworkID("c11"))
+	if err != nil {
+		panic(err)
+	}
+
+	c11signedOps[name] = op
+
+	return op
 }
 
 func (e *c11env) op() string {
@@ -97,8 +134,9 @@ func (e *c11env) take(k string) string {
 
 var c11FactNames = []string{"F1a", "F1b", "F2a", "F0a"}
 
-func c11NewEnv(flavour string, nfacts int) *c11env {
-	e := &c11env{flavour: flavour, facts: map[string]*c11fact{}, byHash: map[string]*c11fact{}, answers: map[string]string{}}
+func c11NewEnv(flavour string, nfacts int, withOps bool) *c11env {
+	e := &c11env{flavour: flavour, facts: map[string]*c11fact{}, byHash: map[string]*c11fact{}, answers: map[string]string{},
+		withOps: withOps && flavour != "stub", opByHash: map[string]DummyOperation{}}
 
 	points := map[string]base.Point{
 		"F1a": base.RawPoint(33, 0), "F1b": base.RawPoint(33, 1), "F2a": base.RawPoint(34, 0), "F0a": base.RawPoint(32, 0),
@@ -106,7 +144,28 @@ func c11NewEnv(flavour string, nfacts int) *c11env {
 
 	for _, name := range c11FactNames[:nfacts] {
 		// NOTE the fact hash contains the proposed-at time (random data); names drive the control flow
-		pf := NewProposalFact(points[name], base.NewStringAddress("c11-proposer"), valuehash.NewSHA256([]byte("c11-prev-"+name)), nil)
+		var ophs [][2]util.Hash
+
+		if e.withOps {
+			name := name
+			op := c11SignedOp(name)
+			op.preprocess = func(ctx context.Context, _ base.GetStateFunc) (context.Context, base.OperationProcessReasonError, error) {
+				return ctx, nil, nil
+			}
+			op.process = func(context.Context, base.GetStateFunc) ([]base.StateMergeValue, base.OperationProcessReasonError, error) {
+				e.calls = append(e.calls, "op-process("+name+")")
+
+				if err := c11Fault(e.take("op"), "operation"); err != nil {
+					return nil, nil, err
+				}
+
+				return []base.StateMergeValue{base.NewBaseStateMergeValue("c11-state-"+name, base.NewDummyStateValue("v"), nil)}, nil, nil
+			}
+			e.opByHash[op.Hash().String()] = op
+			ophs = [][2]util.Hash{{op.Hash(), op.Fact().Hash()}}
+		}
+
+		pf := NewProposalFact(points[name], base.NewStringAddress("c11-proposer"), valuehash.NewSHA256([]byte("c11-prev-"+name)), ophs)
 		f := &c11fact{
 			name: name, point: points[name], pr: NewProposalSignFact(pf), hash: pf.Hash(),
 			manifest: valuehash.NewSHA256([]byte("c11-manifest-" + name)),
@@ -128,13 +187,20 @@ func c11NewEnv(flavour string, nfacts int) *c11env {
 	var makenew func(base.ProposalSignFact, base.Manifest) (ProposalProcessor, error)
 
 	switch flavour {
-	case "real":
+	case "real", "direct":
 		args := NewDefaultProposalProcessorArgs()
+		e.args = args
 		args.NewWriterFunc = func(pr base.ProposalSignFact, _ base.GetStateFunc) (BlockWriter, error) {
 			return &c11writer{env: e, fact: e.byHash[pr.Fact().Hash().String()]}, nil
 		}
 		args.GetStateFunc = func(string) (base.State, bool, error) { return nil, false, nil }
-		args.GetOperationFunc = func(context.Context, util.Hash, util.Hash) (base.Operation, error) { return nil, nil }
+		args.GetOperationFunc = func(_ context.Context, oph, _ util.Hash) (base.Operation, error) {
+			if op, ok := e.opByHash[oph.String()]; ok {
+				return op, nil
+			}
+
+			return nil, nil
+		}
 
 		makenew = func(pr base.ProposalSignFact, previous base.Manifest) (ProposalProcessor, error) {
 			return c11NewDefaultProposalProcessor(pr, previous, args), nil
@@ -199,12 +265,16 @@ type c11writer struct {
 
 func (*c11writer) SetOperationsSize(uint64) {}
 
-func (*c11writer) SetProcessResult(context.Context, uint64, util.Hash, util.Hash, bool, base.OperationProcessReasonError) error {
-	return nil
+func (w *c11writer) SetProcessResult(context.Context, uint64, util.Hash, util.Hash, bool, base.OperationProcessReasonError) error {
+	w.env.calls = append(w.env.calls, "set-process-result("+w.fact.name+")")
+
+	return c11Fault(w.env.take("result"), "SetProcessResult")
 }
 
-func (*c11writer) SetStates(context.Context, uint64, []base.StateMergeValue, base.Operation) error {
-	return nil
+func (w *c11writer) SetStates(context.Context, uint64, []base.StateMergeValue, base.Operation) error {
+	w.env.calls = append(w.env.calls, "set-states("+w.fact.name+")")
+
+	return c11Fault(w.env.take("states"), "SetStates")
 }
 
 func (w *c11writer) Manifest(context.Context, base.Manifest) (base.Manifest, error) {
@@ -212,8 +282,8 @@ func (w *c11writer) Manifest(context.Context, base.Manifest) (base.Manifest, err
 
 	w.env.calls = append(w.env.calls, w.env.op()+":manifest("+w.fact.name+")")
 
-	if w.env.take("manifest") == "err" {
-		return nil, errors.Errorf("c11: manifest failed")
+	if err := c11Fault(w.env.take("manifest"), "Manifest"); err != nil {
+		return nil, err
 	}
 
 	w.manifest = base.NewDummyManifest(w.fact.point.Height(), w.fact.manifest)
@@ -402,10 +472,10 @@ func (e *c11env) check() []c11vio {
 		switch {
 		case s.avpProposal == nil || !s.avpProposal.Equal(f.hash):
 			vio(map[string]any{"kind": "saved-for-other-proposal"}, "block of %s saved with an ACCEPT voteproof of another proposal", s.fact)
-		case e.flavour == "real" && (s.manifest == nil || !s.manifest.Equal(s.avpNewBlock)):
-			vio(map[string]any{"kind": "saved-with-mismatching-manifest"},
-				"block of %s (height %d) saved although the ACCEPT majority's new block %s is not the computed manifest %v", s.fact, s.height, s.avpNewBlock, s.manifest)
-		case e.flavour == "real" && !s.avpNewBlock.Equal(f.manifest):
+		case e.flavour != "stub" && (s.manifest == nil || !s.manifest.Equal(s.avpNewBlock)):
+			vio(map[string]any{"kind": "saved-with-mismatching-manifest", "manifest_computed": s.manifest != nil},
+				"block of %s (height %d) saved although the ACCEPT majority's new block %s is not a manifest computed for that proposal (computed: %v)", s.fact, s.height, s.avpNewBlock, s.manifest)
+		case e.flavour != "stub" && !s.avpNewBlock.Equal(f.manifest):
 			vio(map[string]any{"kind": "saved-with-mismatching-manifest"}, "block of %s saved for new block %s", s.fact, s.avpNewBlock)
 		}
 
@@ -439,6 +509,13 @@ func (e *c11env) savedString() string {
 func (e *c11env) key() string {
 	cur := "-"
 
+	if e.direct != nil {
+		p := e.direct
+
+		return fmt.Sprintf("direct|processed=%v/saved=%v/canceled=%v/manifest=%v/writer=%v/processcalled=%v|saved=%s",
+			p.isprocessed, p.issaved, p.isCanceled(), p.manifest != nil, p.writer != nil, e.directP > 0, e.savedString())
+	}
+
 	switch p := e.pps.p.(type) {
 	case nil:
 	case *DefaultProposalProcessor:
@@ -454,13 +531,13 @@ func (e *c11env) key() string {
 // ---------------------------------------------------------------- reference model
 
 type c11model struct {
-	flavour  string
-	heights  map[string]base.Height
-	cur      string // fact of the kept processor ("" none)
-	hasM     bool   // the kept processor computed its manifest
-	dead     bool   // the kept processor was canceled (failed processing)
-	prev     base.Height
-	saved    []string
+	flavour string
+	heights map[string]base.Height
+	cur     string // fact of the kept processor ("" none)
+	hasM    bool   // the kept processor computed its manifest
+	dead    bool   // the kept processor was canceled (failed processing)
+	prev    base.Height
+	saved   []string
 }
 
 func (m *c11model) apply(ev c11event) {
@@ -472,7 +549,7 @@ func (m *c11model) apply(ev c11event) {
 
 		m.cur, m.hasM, m.dead = ev.fact, true, false
 
-		switch ev.answer {
+		switch ev.answer[strings.LastIndex(ev.answer, ":")+1:] {
 		case "err":
 			m.hasM, m.dead = false, true
 		case "ign":
@@ -544,10 +621,15 @@ func c11Events(flavour string, nfacts int) []c11event {
 	var evs []c11event
 
 	for _, f := range c11FactNames[:nfacts] {
-		evs = append(evs, c11event{kind: "P", fact: f}, c11event{kind: "P", fact: f, answer: "err"})
+		evs = append(evs, c11event{kind: "P", fact: f})
 
-		if flavour == "stub" {
-			evs = append(evs, c11event{kind: "P", fact: f, answer: "ign"})
+		switch flavour {
+		case "stub":
+			evs = append(evs, c11event{kind: "P", fact: f, answer: "err"}, c11event{kind: "P", fact: f, answer: "ign"})
+		default: // processing stops in the operation, at SetStates, at SetProcessResult or at Manifest: the writer exists, no manifest
+			for _, stage := range []string{"op", "states", "result", "manifest"} {
+				evs = append(evs, c11event{kind: "P", fact: f, answer: stage + ":err"}, c11event{kind: "P", fact: f, answer: stage + ":ign"})
+			}
 		}
 
 		evs = append(evs,
@@ -564,7 +646,11 @@ func c11Events(flavour string, nfacts int) []c11event {
 
 // c11qRun replays a history on fresh real objects; the oracle is evaluated after the last event.
 func c11qRun(flavour string, nfacts int, path []c11event) (vios []c11vio, obs, key string) {
-	e := c11NewEnv(flavour, nfacts)
+	if flavour == "direct" {
+		return c11qRunDirect(path)
+	}
+
+	e := c11NewEnv(flavour, nfacts, true)
 	m := &c11model{flavour: flavour, heights: map[string]base.Height{}, prev: base.NilHeight}
 
 	for n, f := range e.facts {
@@ -576,8 +662,12 @@ func c11qRun(flavour string, nfacts int, path []c11event) (vios []c11vio, obs, k
 
 		switch ev.kind {
 		case "P":
-			if ev.answer != "" {
-				e.answers[map[string]string{"real": "manifest", "stub": "process"}[flavour]] = ev.answer
+			switch k := strings.Index(ev.answer, ":"); {
+			case ev.answer == "":
+			case k < 0:
+				e.answers["process"] = ev.answer
+			default:
+				e.answers[ev.answer[:k]] = ev.answer[k+1:]
 			}
 
 			obs = e.process(ev.fact)
@@ -613,6 +703,74 @@ func c11qRun(flavour string, nfacts int, path []c11event) (vios []c11vio, obs, k
 	return vios, obs, e.key()
 }
 
+// c11qRunDirect: the same events on one DefaultProposalProcessor of F1a, without
+// ProposalProcessors around it (nobody cancels it after a failed Process).
+func c11qRunDirect(path []c11event) (vios []c11vio, obs, key string) {
+	e := c11NewEnv("direct", 1, true)
+	f := e.facts["F1a"]
+	previous := base.NewDummyManifest(f.point.Height()-1, valuehash.NewSHA256([]byte("c11-prevblock")))
+	p := c11NewDefaultProposalProcessor(f.pr, previous, e.args)
+	e.direct = p
+
+	for _, ev := range path {
+		e.answers = map[string]string{}
+
+		switch ev.kind {
+		case "P":
+			if k := strings.Index(ev.answer, ":"); k >= 0 {
+				e.answers[ev.answer[:k]] = ev.answer[k+1:]
+			}
+
+			e.directP++
+
+			switch m, err := p.Process(context.Background(), nil); {
+			case err != nil:
+				obs = "process:failed"
+			case m == nil:
+				obs = "process:no-manifest"
+			default:
+				obs = "process:ok"
+			}
+		case "S":
+			if ev.answer != "" {
+				e.answers["save"] = ev.answer
+			}
+
+			n := len(e.saved)
+
+			switch _, err := p.Save(context.Background(), e.avp("F1a", ev.match)); {
+			case err == nil && len(e.saved) == n+1:
+				obs = "save:saved"
+			case err == nil:
+				obs = "save:nil-but-nothing-saved"
+			case len(e.saved) != n:
+				obs = "save:error-but-saved"
+			case errors.Is(err, ErrProcessorAlreadySaved):
+				obs = "save:already-saved"
+			case errors.Is(err, ErrNotProposalProcessorProcessed):
+				obs = "save:not-processed"
+			default:
+				obs = "save:error"
+			}
+		case "C":
+			obs = "cancel:ok"
+
+			if err := p.Cancel(); err != nil {
+				obs = "cancel:error"
+			}
+		}
+	}
+
+	vios = e.check()
+
+	if obs == "save:nil-but-nothing-saved" || obs == "save:error-but-saved" {
+		vios = append(vios, c11vio{map[string]any{"kind": "save-result-differs-from-writer", "flavour": "direct", "what": obs},
+			"Save's result and the writer's Save call disagree | calls: " + strings.Join(e.calls, " ")})
+	}
+
+	return vios, obs, e.key()
+}
+
 func c11PathDevs(path []c11event) int {
 	n := 0
 
@@ -628,10 +786,18 @@ func c11PathDevs(path []c11event) int {
 func c11PartQ(r *vlib.Run, flavour string) {
 	nfacts := vlib.Pick(r, 3, 4)
 	depth := vlib.Pick(r, 4, 6)
+
+	if flavour == "direct" {
+		nfacts = 1
+	}
+
 	events := c11Events(flavour, nfacts)
 
 	r.Set("q_depth", depth)
-	r.Set("q_proposals", nfacts)
+
+	if flavour != "direct" {
+		r.Set("q_proposals", nfacts)
+	}
 	r.Set("q_events_"+flavour, len(events))
 
 	type state struct{ path []c11event }
@@ -717,13 +883,14 @@ func c11PartQ(r *vlib.Run, flavour string) {
 // ---------------------------------------------------------------- part S
 
 type c11op struct {
-	kind  string // P | S | C
-	fact  string
-	match bool
+	kind   string // P | S | C
+	fact   string
+	match  bool
+	answer string // P: what the writer's Manifest (real) / the stub's Process answers: "" ok | err | ign
 }
 
 func (o c11op) id() string {
-	return c11event{kind: o.kind, fact: o.fact, match: o.match}.id()
+	return c11event{kind: o.kind, fact: o.fact, match: o.match, answer: o.answer}.id()
 }
 
 type c11scfg struct {
@@ -765,7 +932,7 @@ func (c c11scfg) kinds() string {
 }
 
 func c11sBuild(c c11scfg) vsched.Scenario {
-	e := c11NewEnv(c.flavour, 3)
+	e := c11NewEnv(c.flavour, 3, false)
 	e.opOf = map[int]string{}
 	results := make([][]string, len(c.threads))
 
@@ -783,6 +950,10 @@ func c11sBuild(c c11scfg) vsched.Scenario {
 
 				switch o.kind {
 				case "P":
+					if o.answer != "" { // at most one faulty Process per scenario: the answer is consumed by its own Manifest / Process call
+						e.answers[map[string]string{"real": "manifest", "stub": "process"}[c.flavour]] = o.answer
+					}
+
 					res = e.process(o.fact)
 				case "S":
 					res = e.saveConcurrent(o.fact, o.match)
@@ -874,6 +1045,8 @@ func c11Scenarios(thorough bool) []c11scfg {
 	X := func(f string) c11op { return c11op{kind: "S", fact: f, match: false} }
 	C := c11op{kind: "C"}
 	T := func(ops ...c11op) []c11op { return ops }
+	Pign := func(f string) c11op { return c11op{kind: "P", fact: f, answer: "ign"} }
+	Perr := func(f string) c11op { return c11op{kind: "P", fact: f, answer: "err"} }
 
 	// small: <= 3 operations; large: 4 operations or 3 threads. The real processor spawns a
 	// goroutine per Process and a context watcher per Process/Save, so its large scenarios
@@ -885,6 +1058,10 @@ func c11Scenarios(thorough bool) []c11scfg {
 		{T(P("F1a"), X("F1a")), T(S("F1a"))},
 		{T(P("F1a"), S("F1a")), T(P("F1b"))},
 		{T(P("F1a"), S("F1a")), T(S("F1b"))},
+		// processing stops without a manifest (ignorable: the processor is kept; plain: it is canceled), then Save arrives
+		{T(Pign("F1a")), T(S("F1a"))},
+		{T(Pign("F1a"), S("F1a")), T(X("F1a"))},
+		{T(Perr("F1a")), T(S("F1a"))},
 	}
 	large := [][][]c11op{
 		{T(P("F1a"), S("F1a")), T(P("F1b"), S("F1b"))},
@@ -1021,10 +1198,11 @@ func TestVerifC11(t *testing.T) {
 	defer r.Finish()
 
 	r.Rule("part Q: BFS with state dedup over histories of Process+await / Save(new block = computed manifest | another hash) / Cancel for proposals F1a (33,0), F1b (33,1), F2a (34,0) (thorough: + F0a (32,0)), " +
-		"writer / processor answers deviating from ok (manifest or process error, ignorable process error, save error, save canceled) at <= 2 events per path, replayed on a fresh real ProposalProcessors; " +
+		"writer / processor answers deviating from ok at <= 2 events per path (real flavour: processing stops with a plain or an ignorable (ErrIgnoreErrorProposalProcessor) error in the operation, at SetStates, at SetProcessResult or at Manifest, i.e. after the writer exists and before a manifest does; writer Save error; stub flavour: process error, ignorable process error, save error, save canceled), replayed on a fresh real ProposalProcessors; " +
+		"flavour direct: the same events on one DefaultProposalProcessor without ProposalProcessors; " +
 		"state key = kept processor (proposal and its flags), previousSaved, the save log, deviations used: these are all the mutable fields of the objects and of the oracle; " +
 		"part S: every interleaving within the preemption bound of the listed thread programs; non-trivial = an event other than a refused 'nothing processed' / 'already processing' (Q), a scenario with more than one outcome (S)")
-	r.Assume("proposals carry no operations (operation processing is C10's subject); the BlockWriter is a recording stub whose Save call is 'a block is saved'")
+	r.Assume("part Q: every proposal carries one operation producing one state (so SetStates, SetProcessResult and Manifest are all reached); part S: proposals carry no operations (util/worker.go is not instrumented); the BlockWriter is a recording stub whose Save call is 'a block is saved'")
 	r.Assume("Save is called as the state handlers call it: the fact hash argument is the ACCEPT majority's proposal, the voteproof's point is the proposal's point")
 
 	rid, rp := r.Replaying()
@@ -1035,7 +1213,7 @@ func TestVerifC11(t *testing.T) {
 		c11PartS(r)
 	}
 
-	for _, fl := range []string{"real", "stub"} {
+	for _, fl := range []string{"real", "stub", "direct"} {
 		item++
 
 		if rp && !strings.HasPrefix(rid, "q/"+fl+"/") {
